@@ -561,3 +561,71 @@ def shuffled(draw, items):
         j = draw(st.integers(0, i))
         a[i], a[j] = a[j], a[i]
     return a
+
+
+# ---------------------------------------------------------------------------
+# stepped-diameter chains: collinear wires that continue each other with bit-identical segment vectors
+
+@st.composite
+def stepped_chain(draw, env_kinds=('free', 'ideal'), nsrc=(1, 2), src_form='any', thick=None, max_seg=8, min_seg=3,
+                  tag_styles=None):
+    """2..3 wires in one straight line (telescoping element / stepped-diameter mast): the coordinates lie on a
+    dyadic lattice (multiples of 2^-k metres), so segment length and direction on both sides of each junction are
+    bit-identical - the situation in which the matrix fill may treat neighbouring wires like one wire - while the
+    radii differ.  Free space: any lattice direction; over ground: vertical from the ground plane or elevated."""
+    f = draw(frequency())
+    lam = C_MHZ_M / f
+    env = draw(environment(env_kinds))
+    ground = env['kind'] != 'free'
+    sl = draw(logf(1 / 100., 1 / 12.)) * lam
+    q = 2.0 ** math.floor(math.log2(sl / 8.0))          # lattice constant: the segment is 8..16 lattice steps
+    sl = round(sl / q) * q
+    d = np.array(draw(st.sampled_from([(0, 0, 1), (0, 0, 1), (1, 0, 0), (0, 1, 0), (1, 1, 0), (1, 0, 1), (1, 1, 1)])), float)
+    seg = d * sl                                         # exact
+    seglen = float(np.linalg.norm(seg))
+    nw = draw(st.integers(2, 3))
+    ns = [draw(st.integers(min_seg, max_seg)) for _ in range(nw)]
+    grounded = ground and d[2] == 1 and d[0] == 0 and d[1] == 0 and draw(st.booleans())
+    if ground and not grounded:
+        h = math.ceil((seglen * draw(st.floats(1.1, 4.0))) / q) * q
+        if d[2] > 0:
+            start = np.array([0.0, 0.0, h])
+        else:
+            start = np.array([0.0, 0.0, h])
+    elif ground:
+        start = np.zeros(3)
+    else:
+        start = np.array([draw(st.integers(-8, 8)) * q for _ in range(3)])
+    objs = []
+    p = start
+    rbase = None
+    for i in range(nw):
+        e = p + seg * ns[i]
+        hi = seglen / 8.0 / lam
+        if thick is True:
+            r = draw(logf(min(1.0001e-4, hi), hi))
+        elif thick is False:
+            r = draw(logf(1e-7, min(hi, 0.99e-4)))
+        else:
+            r = draw(logf(1e-6, hi))
+        if rbase is not None and draw(st.booleans()):
+            # moderate steps are the common case (telescoping tubes)
+            r = min(hi, max(1e-7, rbase * draw(st.sampled_from([0.5, 0.7, 0.8, 1.25, 1.5, 2.0, 4.0, 0.25]))))
+        rbase = r
+        o = dict(type='wire', n=ns[i], p1=[float(x) for x in p], p2=[float(x) for x in e], r=r6(r * lam), tag=None,
+                 taper=0, tmin=None, tmax=None, _rev=False)
+        objs.append(o)
+        p = e
+    # order of definition is drawn; direction is kept for most wires (a reversed wire has the opposite direction
+    # vector: its junction pulses are then not of the bit-identical kind)
+    for o in objs:
+        if draw(st.integers(0, 4)) == 0:
+            o['p1'], o['p2'] = o['p2'], o['p1']
+            o['_rev'] = True
+    objs = draw(shuffled(objs))
+    case = {'f': f, 'env': env, 'objs': objs, 'xforms': [], 'scales': [], 'sources': [], 'loads': []}
+    style = draw(tags(objs, tag_styles or ('auto', 'consecutive', 'sparse', 'permuted', 'mixed')))
+    if nsrc[1] > 0:
+        draw(sources(case, nsrc[0], nsrc[1], src_form))
+    case['_info'] = dict(template='stepped-chain', tag_style=style, tapered=False)
+    return case
